@@ -843,6 +843,7 @@ func (m *Monitors) onSendEvent(n *Node, nm *nodeMon, e *spi.Event) {
 		once(nm.sentPP, "PREPREPARE")
 		if c.Leader(msg.V) != n.Id {
 			m.violate("C10", "proposal-by-non-leader", "node %s sent NEW_VIEW h=%d v=%d but the leader is %s", n.Id, msg.H, msg.V, c.Leader(msg.V))
+			m.violate("C18", "new-view-by-non-leader", "node %s sent NEW_VIEW h=%d v=%d but position v mod n is %s", n.Id, msg.H, msg.V, c.Leader(msg.V))
 		}
 		if msg.H == curH && msg.V < curV {
 			m.violate("C10", "proposal-for-old-view", "node %s in view %d sent NEW_VIEW for view %d", n.Id, curV, msg.V)
@@ -894,6 +895,14 @@ func (m *Monitors) onSendEvent(n *Node, nm *nodeMon, e *spi.Event) {
 		}
 		nm.lastVC[msg.H] = int64(msg.V)
 		m.judgeOwnViewChange(n, nm, msg)
+		// C18 by behaviour: the vote of view v goes to the member at position v mod n, and that member collects instead of sending
+		m.Stats["C18 view change destinations judged"]++
+		if len(e.To) != 1 || e.To[0] != c.Leader(msg.V) {
+			m.violate("C18", "view-change-sent-to-wrong-leader", "node %s sent VIEW_CHANGE h=%d v=%d to %v, the leader (position v mod n) is %s", n.Id, msg.H, msg.V, e.To, c.Leader(msg.V))
+		}
+		if c.Leader(msg.V) == n.Id {
+			m.violate("C18", "leader-sent-its-vote-away", "node %s is the leader of h=%d v=%d (position v mod n) but sent its VIEW_CHANGE to %v", n.Id, msg.H, msg.V, e.To)
+		}
 	}
 }
 
